@@ -224,6 +224,14 @@ def _f32(v):
 
 
 def drive(recipe):
+    if recipe.get("via_file") is True:
+        d = tlc.scratch_dir("c05xyz")
+        try:
+            t = drive(dict(recipe, via_file=d))
+            t["meta"]["recipe"] = recipe          # the scratch path is not part of the recipe (replay makes its own)
+            return t
+        finally:
+            tlc.cleanup(d)
     from chmpy.interpolate.density import PromoleculeDensity, StockholderWeight
     z = recipe["z"]
     natoms = len(z)
@@ -244,8 +252,34 @@ def drive(recipe):
     def points(k):
         return np.array(poses[k - 1]["pt"], dtype=np.float64) / UNIT
 
+    kept = {}
+
     def dens(S):
         ids = [a for a in order if a in S]
+        if recipe.get("via_file"):
+            # the atoms reach the library through an .xyz file (PromoleculeDensity.from_xyz_file); the same path is rewritten for
+            # every atom set of the program, element labels in the spellings files use (Cl, CL, cl7, CL12)
+            from chmpy.core.element import Element
+            xyz = coords(pose, ids)
+            lines = [str(len(ids)), "set %s" % (ids[:6],)]
+            for k, a in enumerate(ids):
+                sym = Element.from_atomic_number(z[a - 1]).symbol
+                lab = (sym, sym.upper(), sym.lower() + str(k + 1), sym.upper() + str(10 * k + 3))[(k + len(ids) + a) % 4]
+                lines.append("%s %r %r %r" % (lab, float(xyz[k][0]), float(xyz[k][1]), float(xyz[k][2])))
+            path = os.path.join(recipe["via_file"], "atoms.xyz")
+            with open(path, "w") as fh:
+                fh.write("\n".join(lines) + "\n")
+            return PromoleculeDensity.from_xyz_file(path)
+        if recipe.get("inplace"):
+            # one density object per (ordered) atom set, kept for the whole program: when the atoms move, the caller moves them
+            # in place through the object's own positions array
+            key = tuple(ids)
+            if key in kept:
+                obj = kept[key]
+                obj.positions[:] = coords(pose, ids)
+                return obj
+            kept[key] = PromoleculeDensity((np.array([z[a - 1] for a in ids]), coords(pose, ids)))
+            return kept[key]
         return PromoleculeDensity((np.array([z[a - 1] for a in ids]), coords(pose, ids)))
 
     how = recipe.get("how") or ""
@@ -446,6 +480,10 @@ def _recipes(ctx):
         if r.get("embed"):
             continue
         u = rng.random()
+        if r["kind"] == "molecule" and rng.random() < 0.3:
+            r["inplace"] = True
+        elif r["kind"] == "molecule" and len(r["z"]) <= 12 and rng.random() < 0.3:
+            r["via_file"] = True
         if u < 0.25:
             r["how"] = "chunks%d" % rng.randint(1, 7)
         elif u < 0.40:
